@@ -63,9 +63,15 @@ def lambda_poly(lam: ast.Lambda):
 
 def matrix_display(fn_node):
     """the returned 3x3 display -> [[name,...],...] or None."""
-    for n in ast.walk(fn_node):
-        if isinstance(n, ast.Return) and n.value is not None:
+    own_returns = [n for n in fn_node.body if isinstance(n, ast.Return)] or \
+                  [n for n in ast.walk(fn_node) if isinstance(n, ast.Return)]
+    assigns = {n.targets[0].id: n.value for n in ast.walk(fn_node)
+               if isinstance(n, ast.Assign) and len(n.targets) == 1 and isinstance(n.targets[0], ast.Name)}
+    for n in own_returns:
+        if n.value is not None:
             v = n.value
+            if isinstance(v, ast.Name) and v.id in assigns:
+                v = assigns[v.id]
             if isinstance(v, ast.Call) and v.args and isinstance(v.args[0], ast.List):
                 rows = v.args[0].elts
                 if len(rows) == 3 and all(isinstance(r, ast.List) and len(r.elts) == 3 for r in rows):
@@ -74,6 +80,31 @@ def matrix_display(fn_node):
                     except Exception:
                         return None
     return None
+
+
+CANON = {(0, 0): "i_xx", (1, 1): "i_yy", (2, 2): "i_zz", (0, 1): "i_xy", (0, 2): "i_xz", (1, 2): "i_yz"}
+
+
+def component_map(fn_node):
+    """local variable name -> canonical component ('i_xx', ...) by the slot(s) it occupies in the returned 3x3
+    display (the names themselves carry no meaning).  -> (mapping, problems)"""
+    disp = matrix_display(fn_node)
+    if disp is None:
+        return {}, ["returned 3x3 display not found"]
+    mapping, probs = {}, []
+    for i, j in product(range(3), range(3)):
+        nm = disp[i][j]
+        want = CANON[tuple(sorted((i, j)))]
+        if nm is None:
+            probs.append(f"slot ({AX[i]},{AX[j]}) is not a plain local")
+        elif nm in mapping and mapping[nm] != want:
+            probs.append(f"slot ({AX[i]},{AX[j]}) holds the component computed as {mapping[nm]}")
+        else:
+            mapping.setdefault(nm, want)
+    for i, j in ((0, 1), (0, 2), (1, 2)):
+        if disp[i][j] != disp[j][i]:
+            probs.append(f"slots ({AX[i]},{AX[j]}) and ({AX[j]},{AX[i]}) differ: the tensor is not symmetric")
+    return mapping, probs
 
 
 def check_display(disp):
@@ -117,32 +148,51 @@ def fold(node):
 
 
 def quadrature_table(fn_node):
-    """extract barycentric nodes and weights of ConvexPolyhedron._compute_inertia_tensor.
-    -> (nodes [[l1,l2,l3]...], weights [...], problems)"""
+    """extract barycentric nodes and weights of ConvexPolyhedron._compute_inertia_tensor by structure (no names):
+    the nested function that holds a foldable >= 3-row coefficient literal and divides the array it returns by a
+    constant gives (coefficients, divisor); the only foldable flat literal of as many numbers in the outer body is
+    the weight vector.   -> (nodes [[l1,l2,l3]...], weights [...], problems)"""
     scalars = divisor = weights = None
-    for n in ast.walk(fn_node):
-        if isinstance(n, ast.Assign) and len(n.targets) == 1 and isinstance(n.targets[0], ast.Name):
-            nm = n.targets[0].id
-            if nm == "scalars":
-                scalars = fold(n.value)
-            elif nm == "w":
-                v = n.value
-                while isinstance(v, (ast.Attribute,)):
-                    v = v.value
-                if isinstance(v, ast.Call) and v.args:
-                    weights = fold(v.args[0])
-        elif isinstance(n, ast.AugAssign) and isinstance(n.op, ast.Div) and isinstance(n.target, ast.Name) and n.target.id == "q":
-            divisor = fold(n.value)
+    nested = [n for n in ast.walk(fn_node) if isinstance(n, ast.FunctionDef) and n is not fn_node]
+    nested_nodes = set()
+    for nf in nested:
+        lits, divs, rets = [], [], set()
+        for n in ast.walk(nf):
+            nested_nodes.add(id(n))
+            if isinstance(n, ast.Assign) and len(n.targets) == 1 and isinstance(n.targets[0], ast.Name):
+                v = fold(n.value)
+                if isinstance(v, list) and len(v) >= 3 and all(isinstance(r, list) and len(r) == 3 for r in v):
+                    lits.append(v)
+            elif isinstance(n, ast.AugAssign) and isinstance(n.op, ast.Div) and isinstance(n.target, ast.Name):
+                d = fold(n.value)
+                if isinstance(d, Fraction):
+                    divs.append((n.target.id, d))
+            elif isinstance(n, ast.Return) and isinstance(n.value, ast.Name):
+                rets.add(n.value.id)
+        good = [d for (t, d) in divs if t in rets]
+        if lits and good:
+            scalars, divisor = lits[0], good[0]
+    if scalars is not None:
+        for n in ast.walk(fn_node):
+            if id(n) in nested_nodes or not isinstance(n, ast.Assign):
+                continue
+            v = n.value
+            while isinstance(v, ast.Attribute):
+                v = v.value
+            if isinstance(v, ast.Call) and v.args:
+                w = fold(v.args[0])
+                while isinstance(w, list) and len(w) == 1 and isinstance(w[0], list):
+                    w = w[0]
+                if isinstance(w, list) and len(w) == len(scalars) and all(isinstance(x, Fraction) for x in w):
+                    weights = w
     probs = []
     if scalars is None or divisor is None or weights is None:
-        return None, None, ["quadrature literals (scalars, q /= c, w) not found as foldable constants"]
-    while isinstance(weights, list) and len(weights) == 1 and isinstance(weights[0], list):
-        weights = weights[0]
+        return None, None, ["quadrature literals (coefficient rows, division of the returned points, weight vector) not found as foldable constants"]
     nodes = []
     for row in scalars:
         if all(isinstance(x, Fraction) for x in row):
             if len(set(row)) != 1:
-                probs.append("a flat scalars row with unequal entries multiplies coordinates, not vertices")
+                probs.append("a flat coefficient row with unequal entries multiplies coordinates, not vertices")
                 return None, None, probs
             lam = [row[0] / divisor] * 3
         else:
